@@ -109,6 +109,52 @@ theorem isRun_oneTake {x0 : FState Nat Nat} (tv tv' : TV) (e : Ev)
     (hx : IsRun P x0 tv.x) (h : oneTake P tv e = .ok tv') : IsRun P x0 tv'.x := by
   unfold oneTake at h; simp only [] at h; unbind <;> close_run
 
+theorem isRun_discardAll {x0 : FState Nat Nat} (w : Nat) : ∀ (ts : List Tok) (x x' : FState Nat Nat), IsRun P x0 x →
+    discardAll P x w ts = .ok x' → IsRun P x0 x' := by
+  intro ts
+  induction ts with
+  | nil => intro x x' hx h; simp only [discardAll, pure, Except.pure, Except.ok.injEq] at h; exact h ▸ hx
+  | cons t ts ih =>
+    intro x x' hx h
+    simp only [discardAll] at h
+    split at h
+    · exact (throw_ne_ok h).elim
+    · obtain ⟨y, hy, h'⟩ := bind_ok h
+      exact ih y x' (isRun_stepE P hx hy) h'
+
+theorem isRun_oneBlock {x0 : FState Nat Nat} (tv tv' : TV) (e : Ev)
+    (hx : IsRun P x0 tv.x) (h : oneBlock P tv e = .ok tv') : IsRun P x0 tv'.x := by
+  unfold oneBlock at h; simp only [] at h
+  obtain ⟨x1, h1, h⟩ := bind_ok h
+  have hr := isRun_advance P _ _ _ _ hx h1
+  repeat' (split at h)
+  all_goals first
+    | exact (throw_ne_ok h).elim
+    | (simp [bind, Except.bind, throw, throwThe, MonadExceptOf.throw] at h; done)
+    | (simp only [pure, Except.pure, Except.ok.injEq] at h; subst h; exact hr)
+
+theorem isRun_oneBlockEnd {x0 : FState Nat Nat} (tv tv' : TV) (e : Ev)
+    (hx : IsRun P x0 tv.x) (h : oneBlockEnd P tv e = .ok tv') : IsRun P x0 tv'.x := by
+  unfold oneBlockEnd at h; simp only [] at h
+  obtain ⟨x1, h1, h⟩ := bind_ok h
+  split at h
+  · exact (throw_ne_ok h).elim
+  split at h
+  · exact (throw_ne_ok h).elim
+  obtain ⟨x2, h2, h⟩ := bind_ok h
+  simp only [pure, Except.pure, Except.ok.injEq] at h
+  subst h
+  exact isRun_discardAll P _ _ x1 x2 (isRun_advance P _ _ _ _ hx h1) h2
+
+theorem isRun_oneTakeLocal {x0 : FState Nat Nat} (tv tv' : TV) (e : Ev)
+    (hx : IsRun P x0 tv.x) (h : oneTakeLocal P tv e = .ok tv') : IsRun P x0 tv'.x := by
+  unfold oneTakeLocal at h; simp only [] at h; unbind
+  have hfin := ‹pure _ = Except.ok _›
+  simp only [pure, Except.pure, Except.ok.injEq] at hfin
+  subst hfin
+  simp only [TV.setLocal]
+  solve_by_elim (maxDepth := 10) [isRun_stepE, isRun_advance]
+
 theorem isRun_oneProp {x0 : FState Nat Nat} (tv tv' : TV) (e : Ev)
     (hx : IsRun P x0 tv.x) (h : oneProp P tv e = .ok tv') : IsRun P x0 tv'.x := by
   unfold oneProp at h; simp only [] at h; unbind <;> close_run
@@ -125,8 +171,8 @@ theorem isRun_oneTimeout {x0 : FState Nat Nat} (tv tv' : TV)
     (hx : IsRun P x0 tv.x) (h : oneTimeout P tv = .ok tv') : IsRun P x0 tv'.x := by
   unfold oneTimeout at h; unbind <;> close_run
 
-theorem isRun_one {x0 : FState Nat Nat} (k : Nat) (dfs : Bool) (tv tv' : TV) (e : Ev)
-    (hx : IsRun P x0 tv.x) (h : one P k dfs tv e = .ok tv') : IsRun P x0 tv'.x := by
+theorem isRun_one {x0 : FState Nat Nat} (k : Nat) (mode : Mode) (tv tv' : TV) (e : Ev)
+    (hx : IsRun P x0 tv.x) (h : one P k mode tv e = .ok tv') : IsRun P x0 tv'.x := by
   unfold one at h
   split at h
   · exact isRun_onePop P k tv tv' e hx h
@@ -138,22 +184,30 @@ theorem isRun_one {x0 : FState Nat Nat} (k : Nat) (dfs : Bool) (tv tv' : TV) (e 
   · exact isRun_oneSplitClosed P tv tv' e hx h
   · exact isRun_oneDrop P k tv tv' e hx h
   · exact isRun_oneTimeout P tv tv' hx h
-  · exact isRun_oneTake P tv tv' e hx h
+  · split at h
+    · exact isRun_oneTakeLocal P tv tv' e hx h
+    · exact isRun_oneTake P tv tv' e hx h
   · exact isRun_oneProp P tv tv' e hx h
-  · exact isRun_oneExpand P dfs tv tv' e hx h
+  · exact isRun_oneExpand P _ tv tv' e hx h
   · exact isRun_oneRecord P tv tv' e hx h
   · simp only [pure, Except.pure, Except.ok.injEq] at h; subst h; exact hx
+  · split at h
+    · exact isRun_oneBlock P tv tv' e hx h
+    · exact (throw_ne_ok h).elim
+  · split at h
+    · exact isRun_oneBlockEnd P tv tv' e hx h
+    · exact (throw_ne_ok h).elim
   · exact (throw_ne_ok h).elim
 
-theorem isRun_replay {x0 : FState Nat Nat} (k : Nat) (dfs : Bool) (es : List Ev) : ∀ (tv tv' : TV) (i : Nat),
-    IsRun P x0 tv.x → replay P k dfs tv i es = .ok tv' → IsRun P x0 tv'.x := by
+theorem isRun_replay {x0 : FState Nat Nat} (k : Nat) (mode : Mode) (es : List Ev) : ∀ (tv tv' : TV) (i : Nat),
+    IsRun P x0 tv.x → replay P k mode tv i es = .ok tv' → IsRun P x0 tv'.x := by
   induction es with
   | nil => intro tv tv' i hx h; simp only [replay, pure, Except.pure, Except.ok.injEq] at h; subst h; exact hx
   | cons e es ih =>
     intro tv tv' i hx h
     simp only [replay] at h
     split at h
-    · rename_i tv1 h1; exact ih tv1 tv' (i + 1) (isRun_one P k dfs tv tv1 e hx h1) h
+    · rename_i tv1 h1; exact ih tv1 tv' (i + 1) (isRun_one P k mode tv tv1 e hx h1) h
     · exact (throw_ne_ok h).elim
 
 end SR.Drv.Full
